@@ -10,6 +10,7 @@ import LcModel.Filter.Model
 import LcModel.Proofs.Model
 import LcModel.Mmr.Model
 import LcModel.Cbmt.Model
+import LcModel.Meta.Model
 
 /-- `lcmodel <layer>`: one operation per stdin line, one answer per stdout line. -/
 partial def loop (h : IO.FS.Stream) (out : IO.FS.Stream) (f : String → String) : IO Unit := do
@@ -44,5 +45,6 @@ def main (args : List String) : IO UInt32 := do
   | ["proofs"] => loopSt stdin stdout Proofs.stepLine Proofs.initD; return 0
   | ["cbmt"] => loop stdin stdout Cbmt.stepLine; return 0
   | ["mmr"] => loopSt stdin stdout Mmr.stepLine []; return 0
+  | ["meta"] => loopSt stdin stdout Meta.stepLine Meta.empty; return 0
   | ["quorum"] => loopSt stdin stdout Quorum.step ⟨1, 1, [0], []⟩; return 0
   | _ => IO.eprintln "usage: lcmodel <layer>"; return 2
